@@ -1,7 +1,405 @@
-//! C16 — not built yet.
+//! C16 — capitalisation fixes change only letter case and reach the policy.
+//! Only CP01..CP05 selected; dialect × per-kind policy × ignore_words × (corpus | case scrambles).
+//! * direct: fix_string = source up to ASCII case; lint(fix) reports no CP violation; fix(fix) = fix;
+//!   quoted identifiers / string literals / comments byte-identical.
+//! * group `call`: every recorded call of `handle_segment` (hook in cp01.rs: raw, policy, policy
+//!   list name, memory before/after, result) replayed on the Gallina `handle`.
+use std::collections::BTreeSet;
+
+use serde_json::{Value, json};
+use sqruff_lib::core::config::FluffConfig;
+use sqruff_lib::core::linter::core::Linter;
+use sqruff_lib::rules::capitalisation::cp01::verif_hook::{CAPS_LOG, CapsCall};
+use sqruff_lib_core::parser::segments::base::Tables;
+
 use crate::common::*;
 
-pub fn main(_args: &Args) {
-    eprintln!("c16: not built yet");
-    std::process::exit(2);
+static GLOBAL_SEEN: std::sync::OnceLock<std::sync::Mutex<std::collections::HashSet<u64>>> = std::sync::OnceLock::new();
+
+const POLICIES: [&str; 5] = ["consistent", "upper", "lower", "capitalise", "pascal"];
+/// (config section, policy key)
+const KINDS: [(&str, &str); 5] = [
+    ("capitalisation.keywords", "capitalisation_policy"),
+    ("capitalisation.identifiers", "extended_capitalisation_policy"),
+    ("capitalisation.functions", "extended_capitalisation_policy"),
+    ("capitalisation.literals", "capitalisation_policy"),
+    ("capitalisation.types", "extended_capitalisation_policy"),
+];
+
+struct Item {
+    cls: &'static str,
+    dialect: String,
+    config: String,
+    sql: String,
+}
+
+fn mk_config(dialect: &str, pol: &[&str; 5], ignore: &[Option<String>; 5]) -> String {
+    let mut s = format!("[sqruff]\ndialect = {}\nrules = CP01,CP02,CP03,CP04,CP05\n", dialect);
+    for (i, (sec, key)) in KINDS.iter().enumerate() {
+        s.push_str(&format!("[sqruff:rules:{}]\n{} = {}\n", sec, key, pol[i]));
+        if let Some(w) = &ignore[i] {
+            s.push_str(&format!("ignore_words = {}\n", w));
+        }
+    }
+    s
+}
+
+fn fnv(s: &str) -> u32 {
+    let mut h: u32 = 0x811c9dc5;
+    for b in s.as_bytes() {
+        h ^= *b as u32;
+        h = h.wrapping_mul(0x01000193);
+    }
+    h
+}
+
+// ---------------------------------------------------------------- generators
+fn scramble(rng: &mut Rng, sql: &str) -> (String, &'static str) {
+    let mode = rng.below(5);
+    let mut out = String::with_capacity(sql.len());
+    match mode {
+        0 => (sql.to_ascii_uppercase(), "scramble-upper"),
+        1 => (sql.to_ascii_lowercase(), "scramble-lower"),
+        2 => {
+            for c in sql.chars() {
+                out.push(if c.is_ascii_alphabetic() && rng.chance(1, 2) { if c.is_ascii_lowercase() { c.to_ascii_uppercase() } else { c.to_ascii_lowercase() } } else { c });
+            }
+            (out, "scramble-per-char")
+        }
+        _ => {
+            // per word: upper / lower / Capitalised / camelCase / as is
+            let mut word = String::new();
+            let flush = |rng: &mut Rng, word: &mut String, out: &mut String| {
+                if word.is_empty() {
+                    return;
+                }
+                let w = std::mem::take(word);
+                let r = match rng.below(6) {
+                    0 => w.to_ascii_uppercase(),
+                    1 => w.to_ascii_lowercase(),
+                    2 => {
+                        let mut cs = w.chars();
+                        let f = cs.next().unwrap();
+                        format!("{}{}", f.to_ascii_uppercase(), cs.as_str().to_ascii_lowercase())
+                    }
+                    3 => {
+                        let mut cs = w.chars();
+                        let f = cs.next().unwrap();
+                        let rest: String = cs.enumerate().map(|(i, c)| if i % 3 == 2 { c.to_ascii_uppercase() } else { c.to_ascii_lowercase() }).collect();
+                        format!("{}{}", f.to_ascii_lowercase(), rest)
+                    }
+                    _ => w,
+                };
+                out.push_str(&r);
+            };
+            for c in sql.chars() {
+                if c.is_ascii_alphanumeric() || c == '_' {
+                    word.push(c);
+                } else {
+                    flush(rng, &mut word, &mut out);
+                    out.push(c);
+                }
+            }
+            flush(rng, &mut word, &mut out);
+            (out, if mode == 3 { "scramble-per-word" } else { "scramble-per-word-2" })
+        }
+    }
+}
+
+fn words_of(sql: &str) -> Vec<String> {
+    let mut set = BTreeSet::new();
+    for w in sql.split(|c: char| !(c.is_ascii_alphanumeric() || c == '_')) {
+        if !w.is_empty() && w.len() < 24 && w.chars().next().unwrap().is_ascii_alphabetic() {
+            set.insert(w.to_ascii_lowercase());
+        }
+    }
+    set.into_iter().collect()
+}
+
+fn gen_policies(rng: &mut Rng, k: usize) -> [&'static str; 5] {
+    if k < POLICIES.len() {
+        [POLICIES[k]; 5]
+    } else {
+        let mut p = ["consistent"; 5];
+        for x in p.iter_mut() {
+            *x = POLICIES[rng.below(POLICIES.len())];
+        }
+        p
+    }
+}
+
+fn gen_ignore(rng: &mut Rng, sql: &str) -> [Option<String>; 5] {
+    let mut ig: [Option<String>; 5] = Default::default();
+    if rng.chance(1, 2) {
+        return ig;
+    }
+    let ws = words_of(sql);
+    if ws.is_empty() {
+        return ig;
+    }
+    for x in ig.iter_mut() {
+        if rng.chance(1, 2) {
+            let n = rng.range(1, 3);
+            let mut picked: Vec<String> = (0..n).map(|_| ws[rng.below(ws.len())].clone()).collect();
+            if rng.chance(1, 3) {
+                picked[0] = picked[0].to_ascii_uppercase(); // the config lower-cases them
+            }
+            *x = Some(picked.join(","));
+        }
+    }
+    ig
+}
+
+/// hand-written statements mixing the five element kinds, awkward identifiers included
+const SNIPPETS: &[&str] = &[
+    "SELECT Ab, a_, AB FROM t\n",
+    "select Ab, a_, FooBar, x1 from Tbl where a_ is NULL and b = True\n",
+    "SeLeCt Sum(a), count(b), COALESCE(c, 1) fRoM t gRoUp By a\n",
+    "CREATE TABLE t (a int, b VARCHAR(10), c Timestamp, d Double Precision)\n",
+    "select cast(a as INT), cast(b as varchar(3)), Cast(c AS Date) from t\n",
+    "SELECT \"MiXed\", 'LiTeRaL', `Back`, a -- CoMMent Select\nFROM t /* BLOCK select */\n",
+    "select a, B, c_D, _e, f_, G1 from t1 JOIN t2 on t1.a = T2.a\n",
+    "SELECT null, NULL, Null, true, FALSE, False FROM t\n",
+    "select current_date, CURRENT_TIMESTAMP, Current_Time from t\n",
+    "SELECT a FROM t WHERE a IN (1, 2) AND b LIKE 'x' or c between 1 AND 2\n",
+    "select * from t order by a ASC, b desc NULLS first\n",
+    "INSERT INTO t (A, b) VALUES (1, 'x')\n",
+    "select date_part('year', d), EXTRACT(Year FROM d), dateadd(DAY, 1, d) from t\n",
+];
+
+// ---------------------------------------------------------------- run one item
+fn ascii_lower(s: &str) -> Vec<u8> {
+    s.bytes().map(|b| b.to_ascii_lowercase()).collect()
+}
+
+fn case_name(s: &str) -> Option<&'static str> {
+    match s {
+        "upper" => Some("Upper"),
+        "lower" => Some("Lower"),
+        "capitalise" => Some("Capitalise"),
+        "pascal" => Some("Pascal"),
+        _ => None,
+    }
+}
+fn g_mem(refuted: &[&'static str], latest: &Option<String>) -> Option<String> {
+    let has = |n: &str| g_bool(refuted.contains(&n));
+    if refuted.iter().any(|r| case_name(r).is_none()) {
+        return None;
+    }
+    let lt = match latest {
+        None => "None".to_string(),
+        Some(l) => format!("(Some {})", case_name(l)?),
+    };
+    Some(format!("(mkm {} {} {} {} {})", has("upper"), has("lower"), has("capitalise"), has("pascal"), lt))
+}
+fn g_policy(p: &str) -> String {
+    match p {
+        "consistent" => "Consistent".into(),
+        other => match case_name(other) {
+            Some(c) => format!("(Concrete {})", c),
+            None => "OtherPolicy".into(),
+        },
+    }
+}
+
+fn lint_fix(linter: &Linter, sql: &str) -> Result<(String, Vec<(String, usize, usize)>), String> {
+    catch(|| {
+        let f = linter.lint_string(sql, None, true);
+        let vs: Vec<(String, usize, usize)> = f.violations.iter().filter_map(|v| v.rule.as_ref().map(|r| (r.code.to_string(), v.line_no, v.line_pos))).collect();
+        (f.fix_string(), vs)
+    })
+}
+
+fn run_one(it: &Item, out: &mut Buf) {
+    out.count("files", 1);
+    let input = json!({"dialect": it.dialect, "config": it.config, "sql": it.sql});
+    let key_of = |what: &str| format!("c16-{}:{}:{:08x}", what, it.dialect, fnv(&format!("{}|{}", it.config, it.sql)));
+    if it.sql.contains('\r') {
+        out.count("skipped_cr", 1);
+        return;
+    }
+    let linter = match catch(|| Linter::new(FluffConfig::from_source(&it.config, None), None, None, true)) {
+        Ok(l) => l,
+        Err(_) => {
+            out.count("config_rejected", 1);
+            return;
+        }
+    };
+    // ---- first fix, with the recorder on
+    CAPS_LOG.with(|l| *l.borrow_mut() = Some(Vec::new()));
+    let r1 = lint_fix(&linter, &it.sql);
+    let log: Vec<CapsCall> = CAPS_LOG.with(|l| l.borrow_mut().take()).unwrap_or_default();
+    let (fixed, vs1) = match r1 {
+        Ok(x) => x,
+        Err(msg) => {
+            out.count("panics", 1);
+            let _ = msg; // crashes are C03's subject
+            return;
+        }
+    };
+    out.count("handle_segment_calls", log.len());
+    if fixed != it.sql {
+        out.count("files_changed_by_fix", 1);
+    }
+    if !vs1.is_empty() {
+        out.count("files_with_cp_violations", 1);
+    }
+    // ---- direct observations
+    let case_only = ascii_lower(&fixed) == ascii_lower(&it.sql);
+    out.direct(
+        "fix-changes-only-ascii-case",
+        case_only,
+        &key_of("case"),
+        &format!("fix_string differs from the source by more than ASCII letter case (first difference at byte {:?})", ascii_lower(&fixed).iter().zip(ascii_lower(&it.sql).iter()).position(|(a, b)| a != b)),
+        input.clone(),
+    );
+    match catch(|| linter.lint_string(&fixed, None, false)) {
+        Ok(f2) => {
+            let left: Vec<(String, usize, usize)> = f2.violations.iter().filter_map(|v| v.rule.as_ref().map(|r| (r.code.to_string(), v.line_no, v.line_pos))).filter(|v| v.0.starts_with("CP")).collect();
+            out.direct("lint-of-fix-is-clean", left.is_empty(), &key_of("relint"), &format!("linting the fixed text still reports {:?}; fixed text: {:?}", left, trunc(&fixed, 300)), input.clone());
+        }
+        Err(_) => out.count("relint_panicked", 1),
+    }
+    match lint_fix(&linter, &fixed) {
+        Ok((fixed2, _)) => out.direct("fix-is-idempotent", fixed2 == fixed, &key_of("refix"), &format!("fixing the fixed text changes it again: {:?} -> {:?}", trunc(&fixed, 200), trunc(&fixed2, 200)), input.clone()),
+        Err(_) => out.count("refix_panicked", 1),
+    }
+    if case_only {
+        // quoted identifiers, string literals, comments: byte-identical at the same offsets
+        let r = catch(|| {
+            let tables = Tables::default();
+            let parsed = linter.parse_string(&tables, &it.sql, None).ok()?;
+            let tree = parsed.tree?;
+            let mut bad = vec![];
+            let mut n = 0usize;
+            for seg in tree.get_raw_segments() {
+                let raw = seg.raw();
+                let protected = seg.is_comment() || raw.contains('\'') || raw.contains('"') || raw.contains('`');
+                if !protected {
+                    continue;
+                }
+                n += 1;
+                if let Some(pm) = seg.get_position_marker() {
+                    let sl = pm.source_slice.clone();
+                    if sl.end <= it.sql.len() && sl.end <= fixed.len() && it.sql.as_bytes()[sl.clone()] != fixed.as_bytes()[sl.clone()] {
+                        bad.push(raw.to_string());
+                    }
+                }
+            }
+            Some((n, bad))
+        });
+        if let Ok(Some((n, bad))) = r {
+            out.count("protected_leaves_checked", n);
+            out.direct("quoted-and-comments-untouched", bad.is_empty(), &key_of("protected"), &format!("quoted identifier / literal / comment changed by the fix: {:?}", bad), input.clone());
+        }
+    }
+    // ---- correspondence: every recorded call
+    let mut seen = BTreeSet::new();
+    let mut prev_after: Option<(Vec<&'static str>, Option<String>)> = None;
+    for c in &log {
+        // memory threads from call to call within a crawl; a new crawl starts empty
+        let fresh = c.refuted_before.is_empty() && c.latest_before.is_none();
+        let threaded = fresh || prev_after.as_ref().is_some_and(|(r, l)| r == &c.refuted_before && l == &c.latest_before);
+        out.hyp("H_memory_threads", "blocking", threaded, json!({"input": input, "raw": c.raw, "before": c.refuted_before, "previous_after": prev_after.as_ref().map(|p| p.0.clone())}));
+        prev_after = Some((c.refuted_after.clone(), c.latest_after.clone()));
+        if !c.raw.is_ascii() || c.fixed.as_ref().is_some_and(|f| !f.is_ascii()) {
+            out.count("non_ascii_calls_excluded", 1);
+            continue;
+        }
+        let (Some(mb), Some(ma)) = (g_mem(&c.refuted_before, &c.latest_before), g_mem(&c.refuted_after, &c.latest_after)) else {
+            out.count("calls_with_unknown_case_names", 1);
+            continue;
+        };
+        let name = match c.policy_name.as_str() {
+            "capitalisation_policy" => "Basic",
+            "extended_capitalisation_policy" => "Extended",
+            _ => {
+                out.count("calls_with_unknown_policy_name", 1);
+                continue;
+            }
+        };
+        let args = g_tuple(&[name.to_string(), g_policy(&c.policy), mb, g_str(&c.raw), g_bool(c.templated)]);
+        let exp = g_tuple(&[ma, g_opt(c.fixed.as_ref().map(|f| g_str(f)))]);
+        if !seen.insert((args.clone(), exp.clone())) {
+            continue;
+        }
+        // the same call shows up in many files: keep one correspondence case per distinct (args, expected)
+        {
+            use std::hash::{Hash, Hasher};
+            let mut h = std::collections::hash_map::DefaultHasher::new();
+            (&args, &exp).hash(&mut h);
+            let fresh = GLOBAL_SEEN.get_or_init(Default::default).lock().unwrap().insert(h.finish());
+            out.count("distinct_calls_seen_again_in_another_file", if fresh { 0 } else { 1 });
+            if !fresh {
+                continue;
+            }
+        }
+        let cls = if c.policy == "consistent" { if name == "Basic" { "consistent-basic" } else { "consistent-extended" } } else { "concrete" };
+        out.case(
+            "call",
+            cls,
+            c.fixed.is_some(),
+            args,
+            exp,
+            json!({"input": input, "call": {"raw": c.raw, "policy": c.policy, "policy_name": c.policy_name, "refuted_before": c.refuted_before, "latest_before": c.latest_before, "refuted_after": c.refuted_after, "latest_after": c.latest_after, "fixed": c.fixed}}),
+        );
+    }
+}
+
+pub fn main(args: &Args) {
+    silence_panics();
+    let mut out = Out::new(&args.out);
+    let mut rng = Rng::new(args.seed);
+    let mut items: Vec<Item> = vec![];
+    if let Some(path) = args.flag("--replay-input") {
+        let j: Value = serde_json::from_str(&std::fs::read_to_string(path).unwrap()).unwrap();
+        let j = if j.get("input").is_some() { j["input"].clone() } else { j };
+        items.push(Item { cls: "replay", dialect: j["dialect"].as_str().unwrap_or("ansi").to_string(), config: j["config"].as_str().unwrap_or("").to_string(), sql: j["sql"].as_str().unwrap_or("").to_string() });
+    } else {
+        let none: [Option<String>; 5] = Default::default();
+        // hand-written statements × every uniform policy × a few dialects, plus mixed policies
+        for (i, s) in SNIPPETS.iter().enumerate() {
+            for k in 0..POLICIES.len() + 2 {
+                let pol = gen_policies(&mut rng, k);
+                for d in ["ansi", DIALECTS[(i + k) % DIALECTS.len()]] {
+                    items.push(Item { cls: "snippet", dialect: d.to_string(), config: mk_config(d, &pol, &none), sql: s.to_string() });
+                }
+                let ig = gen_ignore(&mut rng, s);
+                items.push(Item { cls: "snippet-ignore-words", dialect: "ansi".into(), config: mk_config("ansi", &pol, &ig), sql: s.to_string() });
+            }
+        }
+        let corpus = corpus();
+        let (n_plain, n_scr) = if args.thorough() { (corpus.len(), 6000) } else { (140, 420) };
+        let mut idx: Vec<usize> = (0..corpus.len()).collect();
+        rng.shuffle(&mut idx);
+        for &i in idx.iter().take(n_plain) {
+            let f = &corpus[i];
+            if f.text.len() > 5000 {
+                continue;
+            }
+            let k = rng.below(POLICIES.len() + 4);
+            let pol = gen_policies(&mut rng, k);
+            let ig = gen_ignore(&mut rng, &f.text);
+            items.push(Item { cls: "corpus", dialect: f.dialect.clone(), config: mk_config(&f.dialect, &pol, &ig), sql: f.text.clone() });
+        }
+        for _ in 0..n_scr {
+            let f = &corpus[rng.below(corpus.len())];
+            if f.text.len() > 5000 {
+                continue;
+            }
+            let (sql, cls) = scramble(&mut rng, &f.text);
+            let k = rng.below(POLICIES.len() + 4);
+            let pol = gen_policies(&mut rng, k);
+            let ig = gen_ignore(&mut rng, &sql);
+            let d = if rng.chance(1, 6) { DIALECTS[rng.below(DIALECTS.len())].to_string() } else { f.dialect.clone() };
+            items.push(Item { cls, dialect: d.clone(), config: mk_config(&d, &pol, &ig), sql });
+        }
+    }
+    par_run(&mut out, &items, || (), |_, it, buf| {
+        let n0 = buf.lines.len();
+        run_one(it, buf);
+        let _ = n0;
+        buf.count(&format!("items_{}", it.cls), 1);
+    });
+    out.finish();
 }
